@@ -19,6 +19,23 @@ CHECKS = {
                      "nested groups to depth 6, run-time registered and unknown codes, out-of-domain probes, plus seeded "
                      "random values. Exploration is the right level: the input space is unbounded, the oracle is exact.",
                 ref="4 C01", note=BASE_NOTE + "; process TZ=UTC."),
+    "C02": dict(cat="exploration", tech="runtime contracts on MessageHeader/Message encode+decode + differential "
+                "comparison with the reference codec; find_avps judged against a walk of the reference-decoded tree",
+                text="Contracts on MessageHeader.as_packed/from_bytes and Message.as_bytes/from_bytes judge every call; "
+                     "the workload enumerates all 256 flag octets and versions, boundary codes/ids, every registered "
+                     "command code x R bit (typed and generic decode), run-time registered commands and unknown codes, "
+                     "and samples 0..40-AVP messages (nesting<=6, repeats, to 64 KiB) with 1..8 distinct search paths "
+                     "each. Expected classes come from the class tree, not from the registry under test.",
+                ref="4 C02", note=BASE_NOTE + "; byte-exact re-encode is claimed for generic decode only, as the "
+                "property states."),
+    "C03": dict(cat="exploration", tech="exhaustive table cross-check of all attribute definitions against the "
+                "dictionary + round-trip differential (real encoder -> reference decoder -> expectation from the "
+                "definitions; real decoder -> attribute comparison; encode-decode-encode)",
+                text="Static part is exhaustive over all 2827 definitions of 70 typed classes and 255 containers. "
+                     "Dynamic part runs none / each single attribute (exhaustive) / all / random subsets per class with "
+                     "type-directed values, lists of 0..3, containers to depth 4 and undeclared extras, and the "
+                     "attribute exposure of untyped commands against the reference tree.",
+                ref="4 C03", note=BASE_NOTE + "; AVP order within a level is not part of the claim."),
 }
 
 NOT_YET = "check not built yet in this round (planned in DESIGN.md section 4); no claim is made"
